@@ -1,7 +1,9 @@
 package props
 
 import (
+	"context"
 	"fmt"
+	"time"
 
 	"github.com/relab/hotstuff"
 	"github.com/relab/hotstuff/core/eventloop"
@@ -13,6 +15,7 @@ import (
 	"github.com/relab/hotstuff/security/crypto"
 	"github.com/relab/hotstuff/server"
 	"github.com/relab/hotstuff/zverif/cluster"
+	"github.com/relab/hotstuff/zverif/dump"
 	"github.com/relab/hotstuff/zverif/ev"
 	"github.com/relab/hotstuff/zverif/fix"
 	"github.com/relab/hotstuff/zverif/par"
@@ -85,11 +88,72 @@ func c06RunChain(batches [][]*clientpb.Command, idx []int, jump bool) string {
 	parent := hotstuff.GetGenesis()
 	var blocks []*hotstuff.Block
 	for v, bi := range idx {
-		b := hotstuff.NewBlock(parent.Hash(), hotstuff.NewQuorumCert(nil, parent.View(), parent.Hash()), &clientpb.Batch{Commands: batches[bi]}, hotstuff.View(v+1), 1)
+		b := hotstuff.NewBlock(parent.Hash(), hotstuff.NewQuorumCert(nil, parent.View(), parent.Hash()), &clientpb.Batch{Commands: batches[bi]}, hotstuff.View(2*(v+1)), 1)
 		blocks = append(blocks, b)
 		parent = b
 	}
+	// an abandoned sibling (view 3, child of the first block) carrying the never-committed command:
+	// committing past it aborts its batch, which must not look like success to the waiting client
+	sibling := hotstuff.NewBlock(blocks[0].Hash(), hotstuff.NewQuorumCert(nil, blocks[0].View(), blocks[0].Hash()), fix.Batch(fix.Cmd(2, 2)), 3, 2)
+	chain.Store(sibling)
+	// waiting clients: one real ExecCommand call per command of the alphabet plus one for a
+	// command that is never committed; each call gets at most one outcome, success only after
+	// the replica executed the command
+	type outcome struct {
+		id  clientpb.MessageID
+		err error
+	}
+	waitCmds := []*clientpb.Command{fix.Cmd(1, 1), fix.Cmd(1, 2), fix.Cmd(2, 1), fix.Cmd(2, 2)}
+	outc := make(chan outcome, 16)
+	for _, c := range waitCmds {
+		c := c
+		sctx, _ := fix.NewServerCtx(context.Background())
+		go func() {
+			_, err := cio.ExecCommand(sctx, c)
+			outc <- outcome{c.ID(), err}
+		}()
+	}
+	awaiting := func() int {
+		v, _ := dump.Field(cio, "awaitingCmds")
+		if m, ok := v.(map[clientpb.MessageID]chan<- error); ok {
+			// the map is only written under the ClientIO mutex by ExecCommand / Exec; reading its
+			// length here happens while no handler runs
+			return len(m)
+		}
+		return -1
+	}
+	for i := 0; awaiting() < len(waitCmds); i++ {
+		if i > 4000 {
+			return "harness: ExecCommand callers did not register"
+		}
+		time.Sleep(50 * time.Microsecond)
+	}
+	got := map[clientpb.MessageID]int{}
+	success := map[clientpb.MessageID]bool{}
+	collect := func(before int, executedNow map[clientpb.MessageID]bool) string {
+		n := before - awaiting()
+		for k := 0; k < n; k++ {
+			select {
+			case o := <-outc:
+				got[o.id]++
+				if got[o.id] > 1 {
+					return fmt.Sprintf("waiting client of %v received a second outcome", o.id)
+				}
+				if o.err == nil {
+					success[o.id] = true
+					if !executedNow[o.id] {
+						return fmt.Sprintf("waiting client of %v was told success although the replica did not execute the command in this step", o.id)
+					}
+				}
+			case <-time.After(3 * time.Second):
+				return "harness: an outcome was delivered to a waiting client but never returned by ExecCommand"
+			}
+		}
+		return ""
+	}
 	var chainCmds []*clientpb.Command
+	executed := map[clientpb.MessageID]bool{}
+	awaitBefore := awaiting()
 	check := func(upTo int) string {
 		chainCmds = chainCmds[:0]
 		for _, b := range blocks[:upTo] {
@@ -100,11 +164,24 @@ func c06RunChain(batches [][]*clientpb.Command, idx []int, jump bool) string {
 			return fmt.Sprintf("after committing %d blocks the application executed %d commands; executing the chain's %d commands once each in order gives another count or digest", upTo, cio.CmdCount(), len(chainCmds))
 		}
 		seen := map[clientpb.MessageID]bool{}
+		now := map[clientpb.MessageID]bool{}
 		for _, c := range list {
 			if seen[c.ID()] {
 				return fmt.Sprintf("command client=%d seq=%d executed twice", c.ClientID, c.SequenceNumber)
 			}
 			seen[c.ID()] = true
+			if !executed[c.ID()] {
+				now[c.ID()] = true
+			}
+		}
+		if msg := collect(awaitBefore, now); msg != "" {
+			return msg
+		}
+		for id := range now {
+			executed[id] = true
+			if !success[id] {
+				return fmt.Sprintf("command %v was executed while a client was waiting for it, but the client got no success outcome", id)
+			}
 		}
 		return ""
 	}
@@ -113,6 +190,7 @@ func c06RunChain(batches [][]*clientpb.Command, idx []int, jump bool) string {
 		if !jump || i == len(blocks)-1 {
 			ruler.target = b
 		}
+		awaitBefore = awaiting()
 		if err := cm.TryCommit(b); err != nil {
 			return "TryCommit: " + err.Error()
 		}
